@@ -1,7 +1,7 @@
-(* C17 requests: 1700..1704. *)
+(* C17 requests: 1700..1705. *)
 From Coq Require Import List ZArith QArith Bool.
 From PV Require Import lib.Sx lib.Str lib.Result.
-From PV Require Import model.SccWrap model.SccWrite spec.SpecSccw extract.OrCommon.
+From PV Require Import model.SccWrap model.SccWrite spec.SpecSccw model.SccRoundTrip extract.OrCommon.
 Import ListNotations.
 Open Scope Z_scope.
 
@@ -60,6 +60,23 @@ Definition req_size (arg : sx) : sx :=
   | _ => bad
   end.
 
+(* 1705: writer model composed with the SCC reader model: caps -> [status; observation; ok]
+   status 0 = read ok, 1 = writer error, 2 = not a document, 3 = the reader model raised / refused *)
+Definition req_reread (arg : sx) : sx :=
+  match sx_listof sx_wcap arg with
+  | Some caps =>
+      let st := match reread caps with
+                | RRWriteError _ => 1 | RRNotADocument => 2
+                | RRRead (SccStash.ROk _) => 0 | RRRead _ => 3 end in
+      SL [SI st;
+          match reread_obs caps with
+          | Some obs => of_list (fun o => SL [of_q (fst o); SS (snd o)]) obs
+          | None => SL []
+          end;
+          of_bool (roundtrip_ok caps)]
+  | None => bad
+  end.
+
 Definition dispatch (code : Z) (arg : sx) : option sx :=
   match code with
   | 1700 => Some (req_wrap arg)
@@ -67,5 +84,6 @@ Definition dispatch (code : Z) (arg : sx) : option sx :=
   | 1702 => Some (req_ok_output arg)
   | 1703 => Some (req_ok_reread arg)
   | 1704 => Some (req_size arg)
+  | 1705 => Some (req_reread arg)
   | _ => None
   end.
